@@ -248,9 +248,17 @@ impl<'a, 'bases, R: Reader> EhHdrTableIter<'a, 'bases, R> {
         };
 
         self.remain -= 1;
-        let from = parse_encoded_pointer(self.hdr.table_enc, &parameters, &mut self.table)?;
-        let to = parse_encoded_pointer(self.hdr.table_enc, &parameters, &mut self.table)?;
-        Ok(Some((from, to)))
+        let mut parse = || {
+            let from = parse_encoded_pointer(self.hdr.table_enc, &parameters, &mut self.table)?;
+            let to = parse_encoded_pointer(self.hdr.table_enc, &parameters, &mut self.table)?;
+            Ok(Some((from, to)))
+        };
+        let result = parse();
+        if result.is_err() {
+            // The entry count comes from the header, so stop once the table is unreadable.
+            self.remain = 0;
+        }
+        result
     }
     /// Yield the nth entry in the `EhHdrTableIter`
     pub fn nth(&mut self, n: usize) -> Result<Option<(Pointer, Pointer)>> {
